@@ -48,6 +48,10 @@ class NormRule:
         self.f, self.row = f, row
         self.M = set(row["model"])
         self.flag, self.call = row["normalize"]
+        # the zero-sweep clause speaks about returns *after* the sweep loop; a return before it is a documented
+        # shortcut (all modes fixed: the initialisation is the answer and must stay as given, C14)
+        loops = [x.lineno for x in f.node.body if isinstance(x, (ast.For, ast.While))]
+        self.zero_trip = min(loops) if loops else None
 
     def relevant(self, n):
         if isinstance(n, (ast.Name, ast.Subscript, ast.Attribute)) and isinstance(getattr(n, "ctx", None), ast.Store):
@@ -96,6 +100,11 @@ class NormRule:
             object_models = {m for m in self.M if m in covered}
             if reads & self.M - covered or not (reads & locals_) or not object_models:
                 ex.report(("NORMALISE-ON-EXIT", src(a)), f"with {self.flag}=True this return is reached after a sweep write to the model without passing `{self.call}`: the factors are returned un-normalised (scale not moved to the weights/core)", node)
+        if node.kind == "return" and st == "none" and self.zero_trip is not None and getattr(a, "lineno", 0) > self.zero_trip:
+            locals_ = {l for _, l in named}
+            reads = names_in(a.value) if a.value is not None else set()
+            if not (reads & locals_):
+                ex.report(("NORMALISE-ON-EXIT", "zero sweeps: " + src(a)), f"with {self.flag}=True this return is reached on a path that never passes `{self.call}` (no sweep is run: n_iter_max=0, or the loop is left before its first write): a user-supplied initialisation is handed back as it was given, un-normalised", node)
         return (st, named)
 
 
@@ -253,11 +262,11 @@ def _loop_line(f):
 
 def run(ctx: Ctx):
     res = ctx.res
-    res.rule("NORMALISE-ON-EXIT", "under normalize_factors=True every path from a sweep write to a return passes the normalising call (cp_normalize / tucker_normalize of the whole model)", floor=6)
+    res.rule("NORMALISE-ON-EXIT", "under normalize_factors=True every path from a sweep write to a return passes the normalising call (cp_normalize / tucker_normalize of the whole model); so does every path that reaches a return behind the sweep loop without a sweep write (iteration cap 0: a user-supplied start is returned normalised too)", floor=6)
     res.rule("RETURNS-VALIDATED", "every decomposition entry point returns (first component of) a value built by its family's validating wrapper constructor on every path", floor=14)
     res.rule("CORE-IN-SYNC", "in partial_tucker the returned core is multi_mode_dot(tensor, factors, modes=modes, transpose=True) evaluated after the last store into factors", floor=1)
     res.assume(
-        "paths without a sweep write (n_iter_max = 0) are outside NORMALISE-ON-EXIT",
+        "returns in front of the sweep loop (the all-modes-fixed shortcut) are outside NORMALISE-ON-EXIT: there the initialisation is the answer",
         "the wrapper constructors validate (C03 CTOR-VALIDATES)",
         "NOT decided: shapes equal the input's mode sizes and requested ranks; orthonormality; TT-SVD left-orthogonality; 'weights all ones otherwise'",
     )
